@@ -406,25 +406,75 @@ theorem layout_satisfies_spec (aliases : Bool) (x : Img Rat) (mask : Nat → Nat
     simpa using model_satisfies_spec x mask b0 b1 padMode part (shuffleIdx x mask b0 b1 padMode part) hb0 hb1
       (List.Perm.refl _)
 
-/-- Every image of the shuffle sequence has the shape of `y`, so `shuffledᵢ[mask]` reads exactly
-the coordinates `{q | mask q}` that `y[mask]` (and `x[mask]`) read; and there is one rᵢ per shuffle. -/
-theorem same_pixels (x y : Img Rat) (mask : Nat → Nat → Bool) (b : Nat) (part : Bool)
+/-! ## `shuffle_blocks` as a call: what is left of the arguments -/
+
+/-- **"The mask passed must not be written to"** (the code's own comment), as a frame property of the call model
+`shuffleCall` with the copy statement in place (`copies = true`, the code as it is): in both modes and whatever the
+memory layout, the caller's mask array after the call is the one before; the array handed back is the pure model's
+`shuffleBlocksLayout`; in pad mode the caller's `x` is untouched, in in-place mode the caller's `x` *is* the
+array handed back.  The trim writes exist in the model (`inplaceMask`, `trimCuts`); they go to the copy. -/
+theorem shuffle_call_frame {α : Type} (aliases : Bool) (x : Img α) (mask : Nat → Nat → Bool) (b0 b1 : Nat)
+    (padMode part : Bool) (nidx : List Nat) :
+    (shuffleCall true aliases x mask b0 b1 padMode part nidx).maskAfter = mask ∧
+    (shuffleCall true aliases x mask b0 b1 padMode part nidx).ret
+      = shuffleBlocksLayout aliases x mask b0 b1 padMode part nidx ∧
+    (shuffleCall true aliases x mask b0 b1 padMode part nidx).xAfter
+      = (if padMode then x else (shuffleCall true aliases x mask b0 b1 padMode part nidx).ret) := by
+  refine ⟨shuffleCall_maskAfter_copies _ _ _ _ _ _ _ _, shuffleCall_ret _ _ _ _ _ _ _ _ _, ?_⟩
+  rw [shuffleCall_xAfter, shuffleCall_ret]
+  cases padMode <;> rfl
+
+/-- The same model without the copy statement (`copies = false`: the code before fix fb1e9b9): the array handed back
+is the same, but in in-place mode the caller's mask comes back with everything beyond the last whole block switched
+off. -/
+theorem shuffle_call_without_copy {α : Type} (aliases : Bool) (x : Img α) (mask : Nat → Nat → Bool) (b0 b1 : Nat)
+    (part : Bool) (nidx : List Nat) :
+    (shuffleCall false aliases x mask b0 b1 false part nidx).maskAfter
+      = (fun i j => mask i j && decide (i < x.n0 - x.n0 % b0) && decide (j < x.n1 - x.n1 % b1)) ∧
+    (shuffleCall false aliases x mask b0 b1 false part nidx).ret
+      = shuffleBlocksLayout aliases x mask b0 b1 false part nidx :=
+  ⟨shuffleCall_maskAfter_nocopy _ _ _ _ _ _ _, shuffleCall_ret _ _ _ _ _ _ _ _ _⟩
+
+/-- the defect the copy repairs: a 4×4 mask of ones, block 3 - 9 ones afterwards without the copy, 16 with it -/
+example :
+    ((pixels 4 4).filter (fun q => (shuffleCall false true (⟨4, 4, fun i j => ((i * 4 + j : Nat) : Rat)⟩ : Img Rat)
+        (fun _ _ => true) 3 3 false false [0]).maskAfter q.1 q.2)).length = 9 ∧
+    ((pixels 4 4).filter (fun q => (shuffleCall true true (⟨4, 4, fun i j => ((i * 4 + j : Nat) : Rat)⟩ : Img Rat)
+        (fun _ _ => true) 3 3 false false [0]).maskAfter q.1 q.2)).length = 16 := by decide +kernel
+
+/-! ## the probability loop: every rᵢ is computed over the pixels of r, and nothing of the caller's is written -/
+
+theorem masked_eq_filter_map (a : Img Rat) (mask : Nat → Nat → Bool) :
+    masked a mask = ((pixels a.n0 a.n1).filter (fun q => mask q.1 q.2)).map (fun q => a.get q.1 q.2) := by
+  unfold masked
+  generalize pixels a.n0 a.n1 = l
+  induction l with
+  | nil => rfl
+  | cons q l ih =>
+    by_cases hq : mask q.1 q.2 = true
+    · simp [hq, ih]
+    · simp [hq, ih]
+
+/-- **Same pixels, untouched arguments.**  In the run of `pearsonr_probablity` as the code does it (the mask is a
+loop-carried array handed to every call of `shuffle_blocks`, which copies it before trimming; `shuffled` is
+`y.copy()`), for an image `y` of any memory layout `(yC, yF)`:
+there is one round per shuffle; the mask array that `x[mask]` and `shuffled[mask]` are evaluated with in *every*
+round is the one `r` was computed with - a consequence of the frame property of the call
+(`shuffle_call_frame`), not of how the loop is written: the same statement is false for `copies = false`, see the
+`example` below -; every `shuffledᵢ` has the shape of `y`, so `shuffledᵢ[mask]` reads exactly the coordinates
+`{q | mask q}` that `y[mask]` reads; and after the loop the mask array and the caller's `y` are what they were
+(`x` is never passed to anything that could write it). -/
+theorem same_pixels (yC yF : Bool) (y : Img Rat) (mask : Nat → Nat → Bool) (b : Nat) (part : Bool)
     (sigmas : List (List Nat)) :
-    (probSteps x y mask b part sigmas).length = sigmas.length ∧
-    ∀ yi ∈ shuffleSeq y mask b part sigmas,
-      yi.n0 = y.n0 ∧ yi.n1 = y.n1 ∧
-      masked yi mask = (((pixels y.n0 y.n1).filter (fun q => mask q.1 q.2)).map (fun q => yi.get q.1 q.2)) := by
-  have hm : ∀ a : Img Rat, masked a mask
-      = ((pixels a.n0 a.n1).filter (fun q => mask q.1 q.2)).map (fun q => a.get q.1 q.2) := by
-    intro a
-    unfold masked
-    generalize pixels a.n0 a.n1 = l
-    induction l with
-    | nil => rfl
-    | cons q l ih =>
-      by_cases hq : mask q.1 q.2 = true
-      · simp [hq, ih]
-      · simp [hq, ih]
+    (probRun true true yC yF y mask b part sigmas).rounds.length = sigmas.length ∧
+    (∀ rd ∈ (probRun true true yC yF y mask b part sigmas).rounds,
+      rd.mask = (probRun true true yC yF y mask b part sigmas).maskR ∧
+      rd.shuffled.n0 = y.n0 ∧ rd.shuffled.n1 = y.n1 ∧
+      masked rd.shuffled rd.mask
+        = ((pixels y.n0 y.n1).filter (fun q => mask q.1 q.2)).map (fun q => rd.shuffled.get q.1 q.2)) ∧
+    (probRun true true yC yF y mask b part sigmas).final.mask = mask ∧
+    (probRun true true yC yF y mask b part sigmas).final.yMem.caller = y := by
+  obtain ⟨h1, h2, h3, _⟩ := loopRun_spec b part (loopInit true yC yF y mask) y rfl rfl rfl sigmas
   have hshape : ∀ (sg : List (List Nat)) (y : Img Rat), ∀ yi ∈ shuffleSeq y mask b part sg,
       yi.n0 = y.n0 ∧ yi.n1 = y.n1 := by
     intro sg
@@ -437,51 +487,125 @@ theorem same_pixels (x y : Img Rat) (mask : Nat → Nat → Bool) (b : Nat) (par
       · exact ⟨rfl, rfl⟩
       · have := ih _ yi h
         exact ⟨this.1, this.2⟩
-  have hlen : ∀ (sg : List (List Nat)) (y : Img Rat), (shuffleSeq y mask b part sg).length = sg.length := by
-    intro sg
-    induction sg with
-    | nil => intro y; rfl
-    | cons s ss ih => intro y; simp [shuffleSeq, ih]
-  refine ⟨by simp [probSteps, hlen], ?_⟩
-  intro yi hyi
-  obtain ⟨h0, h1⟩ := hshape sigmas y yi hyi
-  refine ⟨h0, h1, ?_⟩
-  rw [hm yi, h0, h1]
+  refine ⟨?_, ?_, h2, h3⟩
+  · show (loopRun true b part (loopInit true yC yF y mask) sigmas).1.length = _
+    rw [h1, List.length_map, shuffleSeq_length]
+  · intro rd hrd
+    change rd ∈ (loopRun true b part (loopInit true yC yF y mask) sigmas).1 at hrd
+    rw [h1, List.mem_map] at hrd
+    obtain ⟨yi, hyi, rfl⟩ := hrd
+    obtain ⟨s0, s1⟩ := hshape sigmas y yi hyi
+    refine ⟨rfl, s0, s1, ?_⟩
+    rw [masked_eq_filter_map, s0, s1]
+    rfl
+
+/-- the loop without the mask copy (the code before fb1e9b9), 4×4 images, block 3: `r` is computed over 16 pixels,
+`r₁` over 9 - with the copy, over 16 -/
+example :
+    let y : Img Rat := ⟨4, 4, fun i j => ((i * 4 + j : Nat) : Rat)⟩
+    ((probRun false true true false y (fun _ _ => true) 3 false [[0]]).rounds.map
+        (fun rd => (masked y rd.mask).length)) = [9] ∧
+    ((probRun true true true false y (fun _ _ => true) 3 false [[0]]).rounds.map
+        (fun rd => (masked y rd.mask).length)) = [16] ∧
+    (masked y (probRun false true true false y (fun _ _ => true) 3 false [[0]]).maskR).length = 16 := by
+  decide +kernel
+
+/-- **No layout flag is needed in the loop** (`x`, `y`, `mask` may be Fortran-ordered or strided views):
+`shuffled = y.copy()` is C-contiguous (`ndarray.copy` has `order='C'`), so `np.ascontiguousarray` inside
+`view_as_blocks` returns the array itself and the block assignment reaches it: whatever the layout `(yC, yF)` of `y`,
+the arrays the rounds read are the iteration of `shuffleBlocksLayout true` (`shuffleSeq`) started from `y`.
+`x[mask]`, `y[mask]`, `shuffled[mask]` are boolean-mask selections, which list the selected pixels in row-major
+index order whatever the memory layout of the three arrays. -/
+theorem loop_layout_free (yC yF : Bool) (y : Img Rat) (mask : Nat → Nat → Bool) (b : Nat) (part : Bool)
+    (sigmas : List (List Nat)) :
+    (probRun true true yC yF y mask b part sigmas).rounds.map (·.shuffled) = shuffleSeq y mask b part sigmas := by
+  obtain ⟨h1, _, _, _⟩ := loopRun_spec b part (loopInit true yC yF y mask) y rfl rfl rfl sigmas
+  show (loopRun true b part (loopInit true yC yF y mask) sigmas).1.map (·.shuffled) = _
+  rw [h1, List.map_map]
+  exact List.map_id _
+
+example : (probRun true true false true (⟨2, 4, fun i j => ((i * 4 + j : Nat) : Rat)⟩ : Img Rat) (fun _ _ => true) 2 false
+      [[1, 0], [1, 0]]).rounds.map (fun rd => (pixels 2 4).map (fun q => rd.shuffled.get q.1 q.2))
+    = [[2, 3, 0, 1, 6, 7, 4, 5], [0, 1, 2, 3, 4, 5, 6, 7]] := by decide +kernel
 
 /-- each in-place shuffle of the loop only rearranges the image: every `shuffledᵢ` has the pixel
-values of `y` (as a multiset), whatever the mask and the block size -/
-theorem loop_conserves (y : Img Rat) (mask : Nat → Nat → Bool) (b : Nat) (part : Bool)
+values of `y` (as a multiset), whatever the mask, the block size and the layout of `y` -/
+theorem loop_conserves (yC yF : Bool) (y : Img Rat) (mask : Nat → Nat → Bool) (b : Nat) (part : Bool)
     (sigmas : List (List Nat)) (hb : 0 < b)
     (hp : ∀ s ∈ sigmas, s.Perm (shuffleIdx y mask b b false part)) :
-    ∀ yi ∈ shuffleSeq y mask b part sigmas,
-      ((pixels y.n0 y.n1).map (fun q => yi.get q.1 q.2)).Perm ((pixels y.n0 y.n1).map (fun q => y.get q.1 q.2)) := by
-  induction sigmas generalizing y with
-  | nil => intro yi h; simp [shuffleSeq] at h
-  | cons s ss ih =>
-    intro yi h
-    simp only [shuffleSeq, List.mem_cons] at h
-    have hs := hp s (by simp)
-    have step := values_conserved y mask b b false part s hb hb hs (by simp [conservedApplies])
-    rcases h with rfl | h
-    · exact step
-    · have hidx : shuffleIdx (shuffleBlocks y mask b b false part s) mask b b false part
-          = shuffleIdx y mask b b false part :=
-        shuffleIdx_shape _ _ mask b b false part rfl rfl
-      have := ih (shuffleBlocks y mask b b false part s)
-        (fun s' hs' => by rw [hidx]; exact hp s' (by simp [hs'])) yi h
-      exact this.trans step
+    ∀ rd ∈ (probRun true true yC yF y mask b part sigmas).rounds,
+      ((pixels y.n0 y.n1).map (fun q => rd.shuffled.get q.1 q.2)).Perm
+        ((pixels y.n0 y.n1).map (fun q => y.get q.1 q.2)) := by
+  have key : ∀ (sigmas : List (List Nat)) (y : Img Rat),
+      (∀ s ∈ sigmas, s.Perm (shuffleIdx y mask b b false part)) →
+      ∀ yi ∈ shuffleSeq y mask b part sigmas,
+        ((pixels y.n0 y.n1).map (fun q => yi.get q.1 q.2)).Perm ((pixels y.n0 y.n1).map (fun q => y.get q.1 q.2)) := by
+    intro sigmas
+    induction sigmas with
+    | nil => intro y _ yi h; simp [shuffleSeq] at h
+    | cons s ss ih =>
+      intro y hp yi h
+      have hl : shuffleBlocksLayout true y mask b b false part s = shuffleBlocks y mask b b false part s := by
+        simp [shuffleBlocksLayout]
+      simp only [shuffleSeq, List.mem_cons, hl] at h
+      have hs := hp s (by simp)
+      have step := values_conserved y mask b b false part s hb hb hs (by simp [conservedApplies])
+      rcases h with rfl | h
+      · exact step
+      · have hidx : shuffleIdx (shuffleBlocks y mask b b false part s) mask b b false part
+            = shuffleIdx y mask b b false part :=
+          shuffleIdx_shape _ _ mask b b false part rfl rfl
+        have := ih (shuffleBlocks y mask b b false part s)
+          (fun s' hs' => by rw [hidx]; exact hp s' (by simp [hs'])) yi h
+        exact this.trans step
+  intro rd hrd
+  have hmem : rd.shuffled ∈ shuffleSeq y mask b part sigmas := by
+    rw [← loop_layout_free yC yF]
+    exact List.mem_map_of_mem hrd
+  exact key sigmas y hp rd.shuffled hmem
 
 /-! ## the shuffle-based probability is a fraction -/
 
-theorem probability_range (gt : List Bool) : 0 ≤ probability gt ∧ probability gt ≤ 1 := by
-  unfold probability
+/-- for `n ≥ 1` comparisons the value is a rational `p` with `0 ≤ p ≤ 1` and `p·n` the natural number of `true`s,
+at most `n` -/
+theorem probability_range (gt : List Bool) (h : gt ≠ []) :
+    ∃ p : Rat, probability gt = some p ∧ 0 ≤ p ∧ p ≤ 1 ∧
+      p * (gt.length : Rat) = (gt.count true : Rat) ∧ gt.count true ≤ gt.length := by
+  have hz : gt.length ≠ 0 := by simpa using h
+  have hpos : (0 : Rat) < (gt.length : Rat) := by exact_mod_cast Nat.pos_of_ne_zero hz
   have h0 : (0 : Rat) ≤ (gt.count true : Rat) := Nat.cast_nonneg _
-  have hl : (0 : Rat) ≤ (gt.length : Rat) := Nat.cast_nonneg _
-  refine ⟨div_nonneg h0 hl, ?_⟩
-  by_cases hz : gt.length = 0
-  · rw [hz]; simp
-  · have hpos : (0 : Rat) < (gt.length : Rat) := by
-      exact_mod_cast Nat.pos_of_ne_zero hz
-    exact (div_le_one hpos).mpr (by exact_mod_cast List.count_le_length)
+  refine ⟨(gt.count true : Rat) / (gt.length : Rat), by simp [probability, hz], div_nonneg h0 hpos.le,
+    (div_le_one hpos).mpr (by exact_mod_cast List.count_le_length), ?_, List.count_le_length⟩
+  field_simp
+
+example : probability [true, false, false] = some (1 / 3) := by decide +kernel
+
+/-- the routine: with `n ≥ 1` shuffles the probability is a fraction `k / n` in `[0, 1]`; with `n = 0` it is NaN
+(`0 / 0` in NumPy), which the property's "fraction in [0, 1]" cannot speak about -/
+theorem pearson_probability_fraction (x y : Img Rat) (mask : Nat → Nat → Bool) (b : Nat) (part : Bool)
+    (sigmas : List (List Nat)) :
+    (sigmas ≠ [] → ∃ (p : Rat) (k : Nat), pearsonProbability x y mask b part sigmas = some p ∧
+      0 ≤ p ∧ p ≤ 1 ∧ p * (sigmas.length : Rat) = (k : Rat) ∧ k ≤ sigmas.length) ∧
+    (sigmas = [] → pearsonProbability x y mask b part sigmas = none) := by
+  have hlen : ((probSteps x y mask b part sigmas).map (·.gt)).length = sigmas.length := by
+    simp [probSteps, probStepsOf, (same_pixels true true y mask b part sigmas).1]
+  constructor
+  · intro hne
+    have hne' : (probSteps x y mask b part sigmas).map (·.gt) ≠ [] := by
+      intro e
+      rw [e] at hlen
+      exact hne (List.length_eq_zero_iff.mp hlen.symm)
+    obtain ⟨p, hp, h0, h1, hk, hle⟩ := probability_range _ hne'
+    rw [hlen] at hk hle
+    exact ⟨p, _, hp, h0, h1, hk, hle⟩
+  · intro he
+    subst he
+    rfl
+
+/-- three shuffles of a 2×4 image in 2×2 blocks (swap, stay, swap): two of the three rᵢ exceed r -/
+example : pearsonProbability (⟨2, 4, fun i j => ((i * 4 + j : Nat) : Rat)⟩ : Img Rat)
+      (⟨2, 4, fun i j => (((i * 4 + j) * (i * 4 + j) % 3 : Nat) : Rat)⟩ : Img Rat) (fun _ _ => true) 2 false
+      [[1, 0], [0, 1], [1, 0]]
+    = some (2 / 3) := by decide +kernel
 
 end Pew.Colocal
